@@ -453,6 +453,74 @@ def _tdms_case(args):
     return out, ncmp
 
 
+def _defective_case(args):
+    """A stored feature that dclab distrusts (`time` written by Shape-In and
+    last touched by dclab < 0.47.6): dclab recomputes it for the input, so
+    the output, whose version string is new, must not carry the stored
+    values along as trusted data.  Oracle: every scalar feature read
+    through dclab is the same for input and output."""
+    task, layout, seed, scratch = args
+    import dclab
+    from dclab import cli
+    d = scratch / f"c08_def_{task}_{layout}_{os.getpid()}"
+    if d.exists():
+        shutil.rmtree(d)
+    d.mkdir()
+    out = []
+    case = {"kind": "defective", "task": task, "layout": layout,
+            "seed": seed}
+    where = f"dclab.cli.task_{task}:{task}"
+    tags = {"task": task, "defective": True}
+    try:
+        src = d / "in.rtdc"
+        ev = gen.make_events(N, seed=seed, special=False,
+                             feats=["deform", "area_um", "frame",
+                                    "index_online", "image", "mask"])
+        with h5py.File(src, "w") as h5:
+            for sec, dd in gen.complete_meta(N, fl=False).items():
+                for k, v in dd.items():
+                    h5.attrs[f"{sec}:{k}"] = v
+            h5.attrs["setup:software version"] = \
+                "ShapeIn 2.2.2.4 | dclab 0.44.0"
+            events = h5.create_group("events")
+            for f in ("deform", "area_um"):
+                _create(events, f, ev[f], "contiguous")
+            _create(events, "frame", ev["frame"].astype(np.uint64),
+                    "contiguous")
+            # stored low-quality time: differs from frame / frame rate
+            fps = h5.attrs["imaging:frame rate"]
+            _create(events, "time",
+                    np.round((ev["frame"] - ev["frame"][0]) / fps, 2) + 5.0,
+                    layout)
+        before = sha(src)
+        o = d / "out.rtdc"
+        getattr(cli, task)(path_in=src, path_out=o)
+        if sha(src) != before:
+            out.append(violation(where, "input-modified", case, "", tags))
+        with dclab.new_dataset(src) as di, dclab.new_dataset(o) as do:
+            for f in ("deform", "area_um", "frame", "time"):
+                a = np.asarray(di[f][:], float)
+                if f not in do:
+                    out.append(violation(where, "feature-missing", case, f,
+                                         dict(tags, feat=f)))
+                    continue
+                b = np.asarray(do[f][:], float)
+                if a.shape != b.shape or not np.allclose(
+                        a, b, rtol=1e-12, atol=0, equal_nan=True):
+                    out.append(violation(
+                        where, "wrong-data", case,
+                        f"{f} ({layout}): input read through dclab gives "
+                        f"{a[:4]}, the {task} output {b[:4]}",
+                        dict(tags, feat=f, kind="scalar")))
+    except BaseException as e:
+        out.append(violation(where, "exception", case,
+                             f"{type(e).__name__}: {e}",
+                             dict(tags, exc=type(e).__name__)))
+    finally:
+        shutil.rmtree(d, ignore_errors=True)
+    return out, 1
+
+
 def _collision_case(args):
     """The input is never modified -- also when the output path names the
     input itself (in whatever spelling): the task may refuse, the input
@@ -530,13 +598,20 @@ def run(ctx):
               for t in ("compress", "repack", "condense")
               for how in ("same", "stem", "dotdot", "relative",
                           "stem-dotdot")]
+    ditems = [(t, lay, ctx.seed, scratch)
+              for t in ("compress", "repack", "condense")
+              for lay in ("contiguous", "chunked", "gzip", "zstd1", "zstd5",
+                          "zstd9-big")]
     for vs, nc in par.pmap(_task_case, items) + par.pmap(
-            _tdms_case, titems) + par.pmap(_collision_case, citems):
+            _tdms_case, titems) + par.pmap(_collision_case, citems) \
+            + par.pmap(_defective_case, ditems):
         viols.extend(vs)
         nontriv += nc > 0
         compared += nc
     ncells = len(LAYOUTS) * 5 + 4 + 4
-    cov = {"evaluations": len(items) + len(titems) + len(citems),
+    cov = {"evaluations": len(items) + len(titems) + len(citems)
+           + len(ditems),
+           "defective_feature_cases": len(ditems),
            "collision_cases": len(citems),
            "distinct_nontrivial": nontriv,
            "datasets_compared": compared,
@@ -570,6 +645,9 @@ def replay(case, ctx):
     if case.get("kind") == "big":
         from .. import big
         return big.violations("C08", ctx.scratch)
+    if case["kind"] == "defective":
+        return _defective_case((case["task"], case["layout"], case["seed"],
+                                ctx.scratch))[0]
     if case["kind"] == "collision":
         return _collision_case((case["task"], case["how"], case["seed"],
                                 ctx.scratch))[0]
